@@ -147,6 +147,26 @@ func addDollarEqus(r *Rand, p *Prog) {
 	}
 }
 
+// addLabelStores: a label stored through a memory operand without a size keyword (`MOV [BX],msg`): the immediate keeps the width
+// of the mode whatever the label's absolute value is.
+func addLabelStores(r *Rand, p *Prog) {
+	var labs []string
+	for _, s := range p.Stmts {
+		if s.K == "label" {
+			labs = append(labs, s.Label)
+		}
+	}
+	if len(labs) == 0 || len(p.Stmts) < 2 {
+		return
+	}
+	for n := r.Range(1, 2); n > 0; n-- {
+		st := PStmt{K: "stl", Text: Pick(r, []string{"[BX]", "[SI]", "[0x500]", "[BP+2]", "[DI+0x100]"}), Label: Pick(r, labs)}
+		k := r.Intn(len(p.Stmts) - 1)
+		rest := append([]PStmt{}, p.Stmts[k:]...)
+		p.Stmts = append(append(p.Stmts[:k:k], st), rest...)
+	}
+}
+
 var c16Origins = []int64{-1, 0, 0x100, 0x7c00, 0xc200, 0x8000, 0xfff0}
 
 func init() {
@@ -163,6 +183,9 @@ func init() {
 			if i%2 == 1 {
 				addDollarEqus(r, p)
 			}
+			if i%3 == 0 {
+				addLabelStores(r, p)
+			}
 			var orgs []int64
 			if env.Tier == "thorough" {
 				orgs = append(orgs, c16Origins...)
@@ -174,7 +197,7 @@ func init() {
 			}
 			cases = append(cases, &OrgCase{P: *p, Orgs: orgs, Cell_: fmt.Sprintf("ref=%d stmts=%d", orgs[0], len(p.Stmts)/10)})
 		}
-		rep.Rule = "seeded 16-bit programs from the size-clean pool with label-target branches, MOV r,label, DW/DD label, DW $, MOV r,$, ALIGNB <= 16, EQUs, and (every second program) names defined as `EQU $` on the first line after ORG and further down, used from DW/DD/MOV elsewhere; each assembled at origins from {none, 0, 0x100, 0x7c00, 0xc200, 0x8000, 0xfff0} (thorough: all 7, quick: 4); " +
+		rep.Rule = "seeded 16-bit programs from the size-clean pool with label-target branches, MOV r,label, DW/DD label, DW $, MOV r,$, ALIGNB <= 16, EQUs, and (every second program) names defined as `EQU $` on the first line after ORG and further down, used from DW/DD/MOV elsewhere, and (every third) labels stored through a memory operand without a size keyword; each assembled at origins from {none, 0, 0x100, 0x7c00, 0xc200, 0x8000, 0xfff0} (thorough: all 7, quick: 4); " +
 			"constructs whose size legitimately depends on absolute values (RESB x-$, numeric branch targets) are excluded; oracle: the walker marks the byte ranges holding absolute label/$ values in the reference image; every other image has the same length, identical bytes outside those ranges (so relative displacements are unchanged) and value_b - value_a = b - a inside them; no ORG == ORG 0; distinct = (reference origin, size bucket) cells"
 		outs := RunCases(env, cases)
 		xcheckProg(env, rep, outs)
